@@ -4,10 +4,7 @@ CONSTANTS
   MaxWrites = 2
   MaxReads = 2
   Perpetual = FALSE
-  MutNoBarrier = FALSE
-  MutOnlyOldSlot = FALSE
-  MutOnlyNewSlot = FALSE
-  MutLoadFirst = FALSE
+  Muts <- MutsNone
 SPECIFICATION Spec
 INVARIANTS Safe CurrentAlive NoLeak LockBalanced MutexOwned ReadWaitFree TypeOK
 SYMMETRY Perms
